@@ -18,6 +18,7 @@ NOTES = {
  'C06': ('DESIGN.md 3/C06', 'struct replaced by a validated pure-Python shim; symbolic hostnames start with g and use contract stubs for ipaddress/inet_pton; oracle = independent RFC 1928 request decoder; IPv6 CONNECT truncation is a listed known finding'),
  'C07': ('DESIGN.md 3/C07', 'real TorState(bootstrap=False); histories = bounded symbolic event choices admitted by the Tor-side reference model (vlib/ref_tor.py), after the empty state and after 5 snapshots installed through _circuit_status/_stream_status; monitors after every event'),
  'C08': ('DESIGN.md 3/C08', 'C07 objects plus recording listener doubles; listener add/remove positions, wait requests and the position of the close acknowledgement relative to the CLOSED event are symbolic choices'),
+ 'C09': ('DESIGN.md 3/C09', 'real TorState/attacher plumbing; harness acknowledges SETCONF/ATTACHSTREAM; attacher answer kind / delivery mode / stream kind symbolic; via-circuit: every causally possible order of 8 events for two concurrent TorCircuitEndpoint.connect calls and an unrelated stream, SOCKS leg faked'),
  'C12': ('DESIGN.md 3/C12', 'list-recording transport double; oracle = reference decoder of tor kvline grammar; values <=3 (quick) / <=4 (thorough) chars over printable ASCII+TAB/CR/LF, 1-2 pairs'),
  'C13': ('DESIGN.md 3/C13', 'reply rendered by a reference encoder (control-spec) and delivered as whole lines through the real lineReceived; values <=3/4 chars printable ASCII; two known findings carved out and re-checked by witnesses'),
  'C20': ('DESIGN.md 3/C20', 'datetime replaced by an int-backed shim validated against timedelta; integer-time task.Clock; TZ=UTC; <=3 steps, 2 names, offsets -10s..3d'),
